@@ -116,7 +116,10 @@ static void arena_unmap(uintptr_t base, size_t len) {
 }
 static void shadow_set(void *p, size_t n, unsigned char v, const char *what) {
 	uintptr_t a = (uintptr_t)p;
-	if(a < (uintptr_t)arena_base || a + n > (uintptr_t)arena_base + ARENA_SIZE) { note("C03", std::string("poison:") + what + "-outside-arena", std::string(what) + " called on memory the policy never handed out"); return; }
+	if(a < (uintptr_t)arena_base || a + n > (uintptr_t)arena_base + ARENA_SIZE) {
+		// (in an operation whose map() call is made to fail, this is "returns null without touching anything": the failing-map property's)
+		bool failing = PS.fail_at >= 0 && PS.maps_this_op > PS.fail_at;
+		note(failing ? g_fail_prop : "C03", std::string("poison:") + what + "-outside-arena", std::string(what) + "(" + std::to_string(a) + ", " + std::to_string(n) + ") called on memory the policy never handed out" + (failing ? " (after map() returned 0)" : "")); return; }
 	memset(g_shadow + (a - (uintptr_t)arena_base), v, n);
 	if(v) APOISON(p, n); else AUNPOISON(p, n);
 }
@@ -754,6 +757,44 @@ static Instance many_partial_inst(const std::string &name, int NS) {
 	return inst;
 }
 
+// Steady churn ("steady alloc/free cycles map nothing new"): for every size class, for the request sizes at both ends of the
+// class (and 0 for the smallest), and for every way of giving a block back - free(p), deallocate(p, n), realloc(p, 0) -
+// more allocate/release cycles than two slabs hold blocks, with one block live at a time.  Whatever a release forgets to put
+// back is gone for good, so the class runs out of free objects and the footprint oracle sees the second slab.
+template<class Cfg>
+static Instance churn_inst(const std::string &name, bool all_classes) {
+	Instance inst; inst.name = name;
+	inst.run = [=](const std::vector<CrashInfo> &cr) {
+		Enumerator E(name, "C02", cr);
+		SlabHarness<Cfg> h(1 << 20, 0, 0, {});
+		h.res = &E.res;
+		size_t prev = 0; bool first = true;
+		for(auto &kv : h.per_slab) {
+			size_t cls = kv.first, per = kv.second;
+			std::vector<size_t> reqs = {cls, prev + 1};
+			if(first) reqs.push_back(0);
+			prev = cls;
+			if(!first && !all_classes && cls != h.max_small) { continue; }
+			first = false;
+			for(size_t req : reqs) for(int form = 0; form < 3; form++) {
+				static const char *fn[] = {"free(p)", "deallocate(p, n)", "realloc(p, 0)"};
+				E.eval("class " + std::to_string(cls) + " request " + std::to_string(req) + " x " + std::to_string(2 * per + 3) + " cycles, released by " + fn[form], "slab.churn", [&] {
+					h.reset();
+					for(size_t c = 0; c < 2 * per + 3; c++) {
+						h.do_alloc(req, (c % 7) == 3, -1);
+						if(form == 2) h.do_realloc(0, 0, -1); else h.do_free(0, form == 1);
+					}
+					h.check_state();
+					if(PS.regions.size() > 1) throw Violation{"C02", "slab:footprint:churn", std::to_string(PS.regions.size()) + " regions are mapped after " + std::to_string(2 * per + 3) + " allocate/release cycles with one live block"};
+				});
+			}
+		}
+		return E.finish();
+	};
+	inst.replay = [](const std::string &) { return 3; };
+	return inst;
+}
+
 static const int FIX_DEPTH = 1 << 30;
 static std::vector<Instance> instances(const std::string &tier) {
 	bool th = tier == "thorough";
@@ -832,6 +873,7 @@ static std::vector<Instance> instances(const std::string &tier) {
 		IN2(v.push_back(slab_inst<CfgSplit>("split-fix-16-300-513-L2" + sfx, 2, 0, F, {16, 300, 513}, FIX));)
 		IN2(v.push_back(slab_inst<CfgOdd>("odd-fix-8-8192-8193-L2" + sfx, 2, 0, F, {8, 8192, 8193}, FIX));)
 	}
+	if(!c04) { IN0(v.push_back(churn_inst<CfgTinyA>("churn-tinyA", true));) IN1(v.push_back(churn_inst<CfgTinyU>("churn-tinyU", true));) IN3(v.push_back(churn_inst<CfgDefA>("churn-defaultA", th));) }
 	if(!c04) { IN0(v.push_back(many_partial_inst<CfgTinyA>("tinyA-six-partial-slabs-all-free-orders", 6));) if(th) { IN0(v.push_back(many_partial_inst<CfgTinyA>("tinyA-seven-partial-slabs-all-free-orders", 7));) } }
 	// the same calls through frg::slab_allocator
 	IN0(v.push_back(slab_inst<CfgTinyA>("tinyA-L3-through-slab_allocator" + sfx, 3, 0, F, {0, 9, 1024, 1025}, th ? 5 : 4, false, true));)
